@@ -1,6 +1,17 @@
 """What each registered check claims (source of MANIFEST.json; see tools/gen_manifest.py)."""
 
 CLAIMS = {
+    "C08": {
+        "text": "Claimed for the table clauses only: get_imm's seven arms evaluated per weekday of the 1st (day = 15 + ((2 - wd) mod 7)); get_roll's five "
+                "arms (Int, EoM -> 31 capped, SoM -> 1, IMM, Unspecified -> Err); add_months rewrites Unspecified to the start date's own day and feeds "
+                "get_roll then roll with its own modifier/settlement; get_roll_by_day's three paths (valid / retry day-1 while day>28 / abort); "
+                "get_eom's downward search from 31; is_leap_year = Feb 29 exists; is_imm/is_eom. The year/month carry arithmetic of add_months is "
+                "explicitly NOT decided.",
+        "design_ref": "DESIGN.md §4 C08",
+        "note": "Not decided: add_months carry arithmetic (an arithmetic identity over all (month, offset) pairs; evaluating it would be executing it); "
+                "Gregorian validity (chrono). Trusted: chrono::NaiveDate::from_ymd_opt.",
+        "technique": "exhaustive case evaluation of match tables and loop summaries over typed HIR",
+    },
     "C06": {
         "text": "UnionCal's predicates are evaluated symbolically and put in negation normal form: is_weekday = forall members, is_holiday = exists "
                 "member, is_settlement = true without settlement calendars else forall settlement calendars is_bus_day (each over its own field); "
